@@ -369,7 +369,7 @@ func runSCIONServer(ctx context.Context, log *slog.Logger, mtrcs *scionServerMet
 									Header:     slayers.PacketAuthOption{EndToEndOption: authOpt},
 									ScionLayer: &scionLayer,
 									PldType:    slayers.L4UDP,
-									Pld:        buf[len(buf)-int(udpLayer.Length):],
+									Pld:        udpLayer.Contents[:len(udpLayer.Contents)+len(udpLayer.Payload)],
 								},
 								authBuf,
 								authMAC,
